@@ -12,11 +12,40 @@ def run(prop, concrete, item, budget_s=60.0, per_path_s=20.0, validate=False, ma
     ex = D.explore(prop, budget_s=budget_s, per_path_s=per_path_s,
                    validate=(concrete if validate else None), max_fails=max_fails,
                    witness_filter=witness_filter)
+    # abandoned paths (solver/path time-out, unsupported operation): their inputs are run
+    # natively under a wall-clock alarm -- a crash or a hang of the real code is a finding
+    if ex.unknown_witnesses and concrete is not None:
+        for w in ex.unknown_witnesses:
+            v = native_guarded(concrete, w)
+            if v is not None and v is not True and not isinstance(v, D.Skip):
+                ex.fails.append({'witness': w, 'msg': 'NATIVE-ONLY ' + str(v)[:300]})
     r = ex.as_dict()
     r['fails'] = [{'witness': f['witness'], 'msg': f['msg'],
                    'replay': {'h': item.get('h'), 'item': item, 'witness': f['witness']}}
                   for f in ex.fails]
     return r
+
+
+class _Alarm(Exception):
+    pass
+
+
+def native_guarded(concrete, w, seconds=20):
+    import signal
+
+    def on_alarm(signum, frame):
+        raise _Alarm()
+    old = signal.signal(signal.SIGALRM, on_alarm)
+    signal.alarm(seconds)
+    try:
+        return concrete(w)
+    except _Alarm:
+        return 'HANG: no result within %d s on %r' % (seconds, w)
+    except Exception as e:     # noqa
+        return 'EXCEPTION %s: %s' % (type(e).__name__, str(e)[:200])
+    finally:
+        signal.alarm(0)
+        signal.signal(signal.SIGALRM, old)
 
 
 def smt_result(obligations, discharged, fails, queries, solver_s, samples, item):
